@@ -37,11 +37,11 @@ impl Frame {
         Frame {
             id: s.id,
             // the values travel through identity-like std-trait operations first (chosen by the frame id)
-            plain: s.plain.to_bd_via((s.id % 7) as u8),
-            num: s.num.to_bd_via((s.id / 7 % 7) as u8),
-            opt: s.opt.as_ref().map(|d| d.to_bd_via((s.id / 49 % 7) as u8)),
-            list: s.list.iter().map(|d| d.to_bd_via((s.id % 5) as u8)).collect(),
-            optplain: s.optplain.as_ref().map(|d| d.to_bd_via((s.id / 3 % 7) as u8)),
+            plain: s.plain.to_bd_via((s.id % 11) as u8),
+            num: s.num.to_bd_via((s.id / 11 % 11) as u8),
+            opt: s.opt.as_ref().map(|d| d.to_bd_via((s.id / 121 % 11) as u8)),
+            list: s.list.iter().map(|d| d.to_bd_via((s.id % 10) as u8)).collect(),
+            optplain: s.optplain.as_ref().map(|d| d.to_bd_via((s.id / 3 % 11) as u8)),
         }
     }
 }
